@@ -17,6 +17,7 @@ def tables : List (String → List String → Option String) := []
   ++ [Drv.table]
   ++ [Drv.monitorsTable]
   ++ [Drv.codecsTable]
+  ++ [Drv.codecsGenTable]
   ++ [Drv.TracksV1.specTable]
   ++ [Drv.T2.table]
   ++ [Drv.C15.table]
